@@ -56,6 +56,6 @@ func VerifC16_v1prio_stop() {
 	vTermWatch(d.err)
 	d.main()
 	vReach("returned")
-	vAssert(vTickerStops() == 1, "C19: the interrupter ticker is stopped when main returns")
+	vAssert(vTickersRunning() == 0, "C19: the interrupter ticker is not left running when main returns")
 	vAssert(vAnd(vIsClosed(d.err), vIsClosed(d.inputAdds), vIsClosed(d.inputRmvs)), "C19: main closes its channels")
 }
